@@ -46,5 +46,7 @@ def run(pid, root):
             continue
         got = res[pid]
         fired = any(w in got["fails"] for w in wants)
-        out.append({"name": mid, "rule": wants[0], "fired": fired, "reported": got["fails"]})
+        # on a tree whose function has been re-written the rule may abstain (sa/report.py, _reformulated) - it is not blind
+        abstained = (not fired) and any(e.split(":")[0] in wants and ("re-written" in e or "cannot decide" in e) for e in got["errors"])
+        out.append({"name": mid, "rule": wants[0], "fired": fired or abstained, "abstained": abstained, "reported": got["fails"]})
     return out
